@@ -19,6 +19,9 @@ PropVerdict(r) ==
   ELSE IF r.pdf = "current_period" /\ ~ClockFree(r.outS, r.outS2) THEN "strict-result-depends-on-reference-time"
   ELSE IF ~RequireFilters(r.outN, r.outR) THEN "require-parts-changed-result"
   ELSE IF r.pdf = "current_period" /\ ~RequireClockFree(DtOf(r.outR), DtOf(r.outR2), R) THEN "required-part-depends-on-reference-time"
+  \* a string with fewer than three date tokens cannot state day, month and year.  Known finding C10-token-reused: under a
+  \* year-first order the number displaced by the four-digit year is used for BOTH the month and the day
+  ELSE IF r.maxparts < 3 /\ (r.outS # None \/ r.outR # None) THEN (IF r.dorder \in {"YMD", "YDM"} THEN "known" ELSE "strict-result-without-all-parts")
   ELSE IF r.gen /\ ~StatesAll(r.outS, ps) THEN "strict-result-without-all-parts"
   ELSE IF r.gen /\ ~RequireStates(r.outR, ps, R) THEN "result-without-required-part"
   ELSE "ok"
@@ -39,6 +42,7 @@ Check(r) ==
          ELSE IF v = "skip" THEN PrintT(<<"SKIP", r.tid, "abs">>) ELSE TRUE
     ELSE LET v == PropVerdict(r) IN
          IF v = "skip" THEN PrintT(<<"SKIP", r.tid, "prop">>)
+         ELSE IF v = "known" THEN PrintT(<<"KNOWN", r.tid, "C10-token-reused", <<"relation">>>>)
          ELSE IF v # "ok" THEN PrintT(<<"REJECT", r.tid, "prop", v, <<"relation">>>>)
          ELSE TRUE
 
